@@ -4101,7 +4101,9 @@ class ISLaUnparser:
         return (
             ""
             if match_expr is None
-            else '="' + str(match_expr).replace('"', r"\"") + '"'
+            else '="'
+            + str(match_expr).replace("\\", "\\\\").replace('"', r"\"")
+            + '"'
         )
 
     def _unparse_quantified_formula(self, formula: QuantifiedFormula) -> List[str]:
